@@ -166,9 +166,9 @@ def step (s : Sess) (c : Cmd) : Sess × String × String :=
           fin (putS { s.setStk k1 (some a') with mem := m } cu) (fmtOut sst so) (fmtOut st o)
       | _, _ => msg "noiter"
     | _, _ => msg "noiter"
-  | "mk_new" =>
+  | "mk_new" | "mk_new_default" =>
     if (s.stk to).isSome then msg "slotbusy" else
-    let (st, r, m, sst) := build true s.mem
+    let (st, r, m, sst) := build (c.op == "mk_new") s.mem
     fin { (s.setStk to r).setLst to (if sst = .ok then some [] else none) with mem := m } (fmtStat sst) (fmtStat st)
   | _ =>
   match s.stk k, s.lst k with
